@@ -9,7 +9,11 @@ require (
 )
 
 require (
-	github.com/anishathalye/porcupine v1.3.0
+	github.com/antihax/optional v1.0.0 // indirect
+	golang.org/x/oauth2 v0.22.0 // indirect
+)
+
+require (
 	github.com/rickar/cal/v2 v2.1.17 // indirect
 	golang.org/x/text v0.17.0 // indirect
 )
